@@ -210,7 +210,7 @@ func TestC07(t *testing.T) {
 		}
 		V.ClassIf(stamp && got[0].ep.ip == srcIP, "response returned to true source")
 	}
-	rcheck(t, "user-agents", V.N(700, 10000), userAgents)
+	rcheck(t, "user-agents", V.N(1800, 10000), userAgents)
 
 	// bin engine: the same property against the real binary started with the
 	// generated YAML file (the wiring of no-received through main is the point)
@@ -240,7 +240,7 @@ func TestC07(t *testing.T) {
 
 	// bursts: requests from several sources back to back, so that a datagram is
 	// read from the socket before the previous one has been decoded
-	rcheck(t, "bursts", V.N(60, 1200), func(rt *rapid.T) {
+	rcheck(t, "bursts", V.N(150, 1200), func(rt *rapid.T) {
 		s := svcs[0]
 		entry := 0 // received-support on
 		l := s.in.cfg.Listens[entry]
@@ -325,7 +325,7 @@ func TestC07(t *testing.T) {
 		}
 	})
 
-	rcheck(t, "backend-connection", V.N(150, 3000), func(rt *rapid.T) {
+	rcheck(t, "backend-connection", V.N(400, 3000), func(rt *rapid.T) {
 		vi := rapid.IntRange(0, len(svcs)-1).Draw(rt, "instance")
 		s := svcs[vi]
 		// the proxy's outbound connection to the TCP backend of listen entry 0
